@@ -427,6 +427,106 @@ def s_partial():
                      st.sampled_from(S.MECHS + ["keychain-live", "keychain-live"]), st.lists(op, min_size=1, max_size=8))
 
 
+# =========================================================================================== re-signing after a permitted edit
+
+def o_resign(case):
+    """a multisig input is completed one key at a time with a hash type per signer; the transaction is then edited (an
+    output changed or appended, an input appended); the signers whose signature the edit invalidated sign again.  The
+    signatures that still commit to the transaction as it stands were made by listed keys, so once the others have signed
+    again m distinct listed keys have signed and the input must validate."""
+    from oracles import refecdsa, refvm as RV
+    B = S.Built(case["tx"])
+    pos = case["pos"] % len(B.ins)
+    inp = B.ins[pos]
+    if not inp.is_multisig():
+        raise HarnessError("resign case without a multisig input at pos")
+    std = S.standard_flags(B.coin)
+    T = B.net.tx
+    tx, txd = B.pycoin_tx(), B.ref_tx()
+    signers = sorted(set(p % inp.n for p in case["signers"]))[:inp.m]
+    rest = [p for p in range(inp.n) if p not in signers]
+    signers = (signers + rest)[:inp.m]
+    labels = ["coin=" + B.coin, "kind=" + inp.kind, "m=%d" % min(inp.m, 4), "edit=" + case["edit"][0]]
+    for j, kp in enumerate(signers):
+        S.pycoin_sign(B, tx, "lookup", [inp.keys[kp]], case["hts"][j % len(case["hts"])], idx_set=[pos], uncompressed=_uncompressed(B))
+    if not tx.is_solution_ok(pos, flags=std):
+        return labels + ["not-complete-before-edit"]       # judged by partial_multisig / multisig_grid
+    # ---- the edit, on both sides
+    e = case["edit"]
+    if e[0] == "out-value" and tx.txs_out:
+        j = e[1] % len(tx.txs_out)
+        tx.txs_out[j].coin_value = txd["outs"][j]["value"] = (txd["outs"][j]["value"] + 1 + e[2] % 1000) % (21 * 10**14)
+    elif e[0] == "append-in":
+        k = [r for r in range(S.RING_N) if r not in inp.keys][e[1] % (S.RING_N - len(inp.keys))]
+        spk = b"\x76\xa9\x14" + S.hash160(S.sec(k, True)) + b"\x88\xac"
+        ph = hashlib.sha256(b"appended%d" % e[2]).digest()
+        tx.txs_in.append(T.TxIn(ph, 1, b"", 0xfffffffd))
+        tx.unspents.append(T.TxOut(1234, spk))
+        txd["ins"].append({"prev_hash": ph, "prev_index": 1, "script": b"", "sequence": 0xfffffffd, "witness": []})
+    else:
+        labels[-1] = "edit=append-out"
+        scr = b"\x51" * (1 + e[1] % 3)
+        tx.txs_out.append(T.TxOut(777 + e[2] % 1000, scr))
+        txd["outs"].append({"value": 777 + e[2] % 1000, "script": scr})
+    # ---- which of the signatures still commit to the transaction as it stands (reference digest + reference ECDSA)
+    S.fill_from_pycoin(txd, tx)
+    blobs = S.signature_blobs(inp, txd["ins"][pos]["script"], txd["ins"][pos]["witness"]) or []
+    alive = set()
+    for blob in blobs:
+        rs = RV.parse_der_lax(blob[:-1])
+        if rs is None:
+            continue
+        z = S.ref_digest(B, txd, pos, blob[-1], amounts=B.amounts() + [1234])
+        if z is None:
+            continue
+        for kp in signers:
+            Q = S.CURVE.mul_fast(S.RING_D[inp.keys[kp]], S.CURVE.G)
+            if refecdsa.verify(S.CURVE, Q, z, rs[0], rs[1]):
+                alive.add(kp)
+    stale = [kp for kp in signers if kp not in alive]
+    labels.append("alive=%d" % min(len(alive), 3))
+    labels.append("stale=%d" % min(len(stale), 3))
+    if not stale:
+        if not tx.is_solution_ok(pos, flags=std):
+            _bad("resign:valid-signatures-not-accepted", "%s: every signature still verifies after the edit, is_solution_ok is False" % _desc(B, pos))
+        return labels
+    # ---- the stale signers sign again (together, or one pass each), with the default hash type
+    before = S.snapshot(tx)
+    passes = [stale] if case["together"] else [[kp] for kp in stale]
+    for grp in passes:
+        S.pycoin_sign(B, tx, "lookup", [inp.keys[kp] for kp in grp], None, idx_set=[pos], uncompressed=_uncompressed(B))
+    after = S.snapshot(tx)
+    diff = _frame_diff(before, after, {pos})
+    if diff:
+        _bad("sign:frame-modified", "%s: re-signing input %d changed %s" % (_desc(B, pos), pos, diff))
+    S.fill_from_pycoin(txd, tx)
+    ok_def, ok_std = tx.is_solution_ok(pos), tx.is_solution_ok(pos, flags=std)
+    if not ok_def or not ok_std:
+        _bad("resign:not-valid-after-stale-signers-signed-again",
+             "%s: signers %r completed the input (hash types %r), then %r; signatures of %r still verify, %r signed again, but "
+             "is_solution_ok is default=%r standard=%r; scriptSig=%s witness=%s" % (
+                 _desc(B, pos), signers, case["hts"], case["edit"], sorted(alive), stale, ok_def, ok_std,
+                 txd["ins"][pos]["script"].hex()[:300], [w.hex()[:24] for w in txd["ins"][pos]["witness"]]))
+    return labels + ["resigned"]
+
+
+def s_resign():
+    ms = S.s_input(S.MULTISIG_KINDS, n=st.sampled_from([2, 2, 3, 3, 4]), mmodes=("all", "any", "any"))
+    other = S.s_input(["p2pkh", "p2wpkh"], big=False)
+    hts = st.lists(st.sampled_from([1, 1, 0x81, 0x81, 2, 0x82, 3, 0x83]), min_size=2, max_size=4)
+    edit = st.one_of(st.tuples(st.just("out-value"), st.integers(0, 5), st.integers(0, 10**6)),
+                     st.tuples(st.just("append-in"), st.integers(0, 30), st.integers(0, 1000)),
+                     st.tuples(st.just("append-out"), st.integers(0, 5), st.integers(0, 1000))).map(list)
+
+    def mk(tx, msin, others, pos, signers, hts, edit, together):
+        ins = list(others)
+        p = pos % (len(ins) + 1)
+        ins.insert(p, msin)
+        return {"tx": dict(tx, ins=ins), "pos": p, "signers": signers, "hts": hts, "edit": edit, "together": together}
+    return st.builds(mk, S.s_tx(1, 1, kinds=["p2pkh"]), ms, st.lists(other, max_size=1), st.integers(0, 1),
+                     st.lists(st.integers(0, 19), min_size=1, max_size=4), hts, edit, st.booleans())
+
+
 # =========================================================================================== (m, n) grid, one key at a time
 
 def _perm(n, *tag):
@@ -522,6 +622,14 @@ SUBCHECKS = [
     SubCheck("multisig_grid", o_grid, cases=cases_grid, exhaustive=False, max_shards=16, guard_s=(240, 3000),
              rule="(m, n) grid, one key per pass in a seed-derived order, m+1 passes: P2WSH n <= 20 and P2SH n <= 15 (thorough: every 1 <= m <= n; "
                   "quick: 16 cells incl. n = 15, 16, 17, 20); pycoin verdict after every pass, refvm at m-1 and m"),
+    SubCheck("multisig_resign_after_edit", o_resign, strategy=s_resign, budget=(320, 12000),
+             nontrivial=lambda c, l: "resigned" in l and "alive=0" not in l,
+             rule="2-4 key multisig input (all four kinds, all coins) completed one key at a time with a hash type per signer (ALL / NONE / "
+                  "SINGLE, with and without ANYONECANPAY); then an output value is changed, an output appended or an input appended; the "
+                  "signatures that still verify (reference digest + reference ECDSA) are kept and the signers whose signature the edit "
+                  "invalidated sign again, together or one pass each: m distinct listed keys have then signed the transaction as it "
+                  "stands and the input must validate under the default and standard flags; non-trivial = at least one surviving "
+                  "signature and at least one re-signed"),
     SubCheck("sign_transactions_pure_python", subproc.pure_python_variant("checks.c05_signing", "o_sign"), strategy=s_sign,
              budget=(16, 1200), nontrivial=nt_sign,
              rule="the sign_transactions cases in a child interpreter started with PYCOIN_NATIVE=none (pure-Python point arithmetic, asserted)"),
